@@ -134,7 +134,6 @@ template <class Filter, class OutputBuffer, class RealOutput> class Controller :
 
   private:
     void FlushInput() {
-      if (input_->Empty()) return;
       filter_.Produce(local_read_.top());
       local_read_.pop();
       if (local_read_.empty()) MoveRead();
